@@ -46,6 +46,7 @@ type clientModel struct {
 	ReaderDone      bool
 	Err             error
 	ConfigEpisodes  int
+	OnConfigEnter   func() // called right after the client entered the configuration phase (1.20.2+)
 	// online mode
 	Online *onlineCreds
 }
@@ -167,6 +168,9 @@ func (c *clientModel) handle(rec *pktRec) bool {
 			_ = c.send(&packet.LoginAcknowledged{})
 			c.wire.setWriteState(state.Config)
 			c.Phase = "config"
+			if c.OnConfigEnter != nil {
+				c.OnConfigEnter()
+			}
 		} else {
 			c.wire.setState(state.Play)
 			c.Phase = "play"
